@@ -9,10 +9,140 @@ import (
 	"golang.org/x/tools/go/ssa"
 )
 
-func (i *Interp) noteWrite(addr *value, fr *frame, in ssa.Instruction)  {}
-func (i *Interp) noteRead(addr *value, fr *frame, in ssa.Instruction)   {}
-func (i *Interp) noteMapWrite(m *smap, fr *frame, in ssa.Instruction)   {}
-func (i *Interp) noteMapRead(m *smap, fr *frame, in ssa.Instruction)    {}
+// Lock-set / immutability monitors (C09).  The harness marks memory as
+// *guarded* (may only be touched while a mutex is held) or *frozen* (may only
+// be written while a mutex is held or inside a sync.Once); every load, store,
+// map read and map write on every explored path is checked.  If no session
+// ever touches shared state except under a lock, no interleaving of sessions
+// has a data race.
+
+func (i *Interp) locked() bool { return i.ex != nil && i.ex.lockDepth > 0 }
+
+func (i *Interp) monitorFail(what string, fr *frame, in ssa.Instruction) {
+	i.fail("assert", what, fr.pos(in), fr)
+}
+
+func (i *Interp) noteWrite(addr *value, fr *frame, in ssa.Instruction) {
+	ex := i.ex
+	if ex == nil || ex.frozen == nil {
+		return
+	}
+	if name, ok := ex.frozen[addr]; ok && !i.locked() {
+		i.monitorFail("unsynchronised write to shared state ("+name+")", fr, in)
+	}
+}
+
+func (i *Interp) noteRead(addr *value, fr *frame, in ssa.Instruction) {
+	ex := i.ex
+	if ex == nil || ex.guarded == nil {
+		return
+	}
+	if name, ok := ex.guarded[addr]; ok && !i.locked() {
+		i.monitorFail("read of lock-guarded shared state without the lock ("+name+")", fr, in)
+	}
+}
+
+func (i *Interp) noteMapWrite(m *smap, fr *frame, in ssa.Instruction) {
+	ex := i.ex
+	if ex == nil || ex.sharedMaps == nil {
+		return
+	}
+	if name, ok := ex.sharedMaps[m]; ok && !i.locked() {
+		i.monitorFail("unsynchronised write to shared map ("+name+")", fr, in)
+	}
+}
+
+func (i *Interp) noteMapRead(m *smap, fr *frame, in ssa.Instruction) {
+	ex := i.ex
+	if ex == nil || ex.guardedMaps == nil {
+		return
+	}
+	if name, ok := ex.guardedMaps[m]; ok && !i.locked() {
+		i.monitorFail("read of lock-guarded shared map without the lock ("+name+")", fr, in)
+	}
+}
+
+// freeze marks everything reachable from v.
+func (i *Interp) freeze(v value, name string, guarded bool) int {
+	ex := i.ex
+	if ex.frozen == nil {
+		ex.frozen = map[*value]string{}
+		ex.sharedMaps = map[*smap]string{}
+		ex.guarded = map[*value]string{}
+		ex.guardedMaps = map[*smap]string{}
+	}
+	seenMaps := map[*smap]bool{}
+	n := 0
+	var walk func(v value, depth int)
+	cell := func(c *value, depth int) {
+		if c == nil {
+			return
+		}
+		if _, done := ex.frozen[c]; done {
+			return
+		}
+		ex.frozen[c] = name
+		if guarded {
+			ex.guarded[c] = name
+		}
+		n++
+		walk(*c, depth+1)
+	}
+	walk = func(v value, depth int) {
+		if depth > 60 {
+			return
+		}
+		switch t := v.(type) {
+		case *value:
+			cell(t, depth)
+		case []value:
+			full := t[:cap(t)]
+			for k := range full {
+				cell(&full[k], depth)
+			}
+		case structure:
+			for k := range t {
+				walk(t[k], depth+1)
+			}
+		case array:
+			for k := range t {
+				walk(t[k], depth+1)
+			}
+		case iface:
+			walk(t.v, depth+1)
+		case *smap:
+			if t == nil || seenMaps[t] {
+				return
+			}
+			seenMaps[t] = true
+			ex.sharedMaps[t] = name
+			if guarded {
+				ex.guardedMaps[t] = name
+			}
+			n++
+			for _, p := range t.order() {
+				walk(t.keys[p], depth+1)
+				walk(t.vals[p], depth+1)
+			}
+		case *closure:
+			if t != nil {
+				for _, e := range t.Env {
+					walk(e, depth+1)
+				}
+			}
+		}
+	}
+	// a struct cell holds its fields inline: freeze the fields' cells
+	walk(v, 0)
+	if p, ok := v.(*value); ok && p != nil {
+		if st, ok := (*p).(structure); ok {
+			for k := range st {
+				cell(&st[k], 1)
+			}
+		}
+	}
+	return n
+}
 
 // mapOrder returns the iteration order for a range over m.
 func (i *Interp) mapOrder(m *smap, fr *frame, in ssa.Instruction) []int {
